@@ -449,9 +449,9 @@ structure Issue (s s' : St) (ps : List Picked) (ord : Nat) (fresh : Bool) : Prop
   streams : StreamsAt s.entropy ord ps
   locked : ∃ entry, s'.locked = s.locked ++ [entry]
   lockedOrd : s'.lockedOrd = s.lockedOrd ++ [ord]
-  kind : (fresh = true ∧ ord = s.spawned ∧ s'.spawned = s.spawned + 1) ∨
-         (fresh = false ∧ s'.spawned = s.spawned ∧ s.locked0Ord.head? = some (some ord))
-  pend : s'.locked0Ord = s.locked0Ord ∨ s'.locked0Ord = s.locked0Ord.tail
+  kind : (fresh = true ∧ ord = s.spawned ∧ s'.spawned = s.spawned + 1 ∧
+           (s'.locked0Ord = s.locked0Ord ∨ s'.locked0Ord = s.locked0Ord.tail)) ∨
+         (fresh = false ∧ s'.spawned = s.spawned ∧ s.locked0Ord = some ord :: s'.locked0Ord)
 
 /-- **`pick()`**: one child spawned, streams `(entropy, [spawned, j])`, the scheduler stream advanced
     by exactly the returned requests, one record (with the ordinal) appended to `locked`. -/
@@ -474,7 +474,7 @@ theorem pick_issue {s s' : St} {o : PickOutcome} {ps : List Picked} {ds : List D
   have hst := mkPicked_streams hmk
   rw [q.entropy, q.spawned] at hst
   refine ⟨⟨q.seed, q.entropy, q.restarted, q.cstep, q.workers, q.tsteps, hst,
-      ⟨(pairs.map (·.1), ps1.map (·.pn)), ?_⟩, ?_, Or.inl ⟨rfl, rfl, ?_⟩, Or.inl q.locked0Ord⟩, ?_,
+      ⟨(pairs.map (·.1), ps1.map (·.pn)), ?_⟩, ?_, Or.inl ⟨rfl, rfl, ?_, Or.inl q.locked0Ord⟩⟩, ?_,
     q.rgenRestored, q.locked0, q.locked0Ord, hshape, ?_⟩
   · show s1.locked ++ _ = s.locked ++ _
     rw [ql]
@@ -588,18 +588,17 @@ theorem pickLock_issue {s s' : St} {o : PickOutcome} {d : Nat} {ps : List Picked
     have hr := restoreStreamOnce_seq s d
     refine ⟨s.spawned, true, hi.seed.trans hr.seed, hi.entropy.trans hr.entropy,
       hi.restarted.trans hr.restarted, hi.cstep.trans hr.cstep, hi.workers.trans hr.workers,
-      hi.tsteps.trans hr.tsteps, ?_, ?_, ?_, Or.inl ⟨rfl, rfl, ?_⟩, ?_⟩
-    rotate_left 4
-    · rcases hi.pend with h | h
-      · exact Or.inl (h.trans hr.locked0Ord)
-      · exact Or.inr (by rw [h, hr.locked0Ord])
+      hi.tsteps.trans hr.tsteps, ?_, ?_, ?_, ?_⟩
     · have := hi.streams
       rw [hr.entropy, hr.spawned] at this
       exact this
     · rw [← hr.locked]; exact hi.locked
     · rw [← hr.lockedOrd, ← hr.spawned]; exact hi.lockedOrd
-    · rcases hi.kind with ⟨_, _, h3⟩ | ⟨h1, _⟩
-      · rw [h3, hr.spawned]
+    · rcases hi.kind with ⟨_, _, h3, h4⟩ | ⟨h1, _⟩
+      · refine Or.inl ⟨rfl, rfl, by rw [h3, hr.spawned], ?_⟩
+        rcases h4 with h | h
+        · exact Or.inl (h.trans hr.locked0Ord)
+        · exact Or.inr (by rw [h, hr.locked0Ord])
       · exact absurd h1 (by simp)
   | cons r rest =>
     obtain ⟨enss0, trajs0⟩ := r
@@ -618,7 +617,7 @@ theorem pickLock_issue {s s' : St} {o : PickOutcome} {d : Nat} {ps : List Picked
         unfold reissueOrd; rw [hh]; exact q.spawned
       refine ⟨s.spawned, true, q.seed, q.entropy, q.restarted, q.cstep, q.workers, q.tsteps,
         by rw [← hord]; exact hst',
-        ⟨(enss0.map (fun (e : Nat) => ((e : Int) - (off : Int))), trajs0), ?_⟩, ?_, Or.inl ⟨rfl, rfl, ?_⟩, Or.inr q.locked0Ord⟩
+        ⟨(enss0.map (fun (e : Nat) => ((e : Int) - (off : Int))), trajs0), ?_⟩, ?_, Or.inl ⟨rfl, rfl, ?_, Or.inr q.locked0Ord⟩⟩
       · show s1.locked ++ _ = s.locked ++ _
         rw [ql]
       · show s1.lockedOrd ++ [reissueOrd s s1] = _
@@ -638,7 +637,17 @@ theorem pickLock_issue {s s' : St} {o : PickOutcome} {d : Nat} {ps : List Picked
           rw [hh]
       refine ⟨ord, false, q.seed, q.entropy, q.restarted, q.cstep, q.workers, q.tsteps,
         by rw [← hord]; exact hst',
-        ⟨(enss0.map (fun (e : Nat) => ((e : Int) - (off : Int))), trajs0), ?_⟩, ?_, Or.inr ⟨rfl, ?_, hhead⟩, Or.inr q.locked0Ord⟩
+        ⟨(enss0.map (fun (e : Nat) => ((e : Int) - (off : Int))), trajs0), ?_⟩, ?_, Or.inr ⟨rfl, ?_, ?_⟩⟩
+      rotate_left 3
+      · show s.locked0Ord = some ord :: s1.locked0Ord
+        rw [q.locked0Ord]
+        show s.locked0Ord = some ord :: s.locked0Ord.tail
+        cases hl : s.locked0Ord with
+        | nil => rw [hl] at hhead; simp at hhead
+        | cons x xs =>
+          rw [hl] at hhead
+          simp only [List.head?_cons, Option.some.injEq] at hhead
+          rw [hhead]; rfl
       · show s1.locked ++ _ = s.locked ++ _
         rw [ql]
       · show s1.lockedOrd ++ [reissueOrd s s1] = _
